@@ -115,22 +115,30 @@ func (f *File) readDataDesc() error {
 	if desc.Signature != dataDescriptorSignature {
 		return errors.New("data descriptor signature is missing")
 	}
-	if f.UncompressedSize >= uint32Max || desc.UncompressedSize != uint32(f.UncompressedSize) || desc.CompressedSize != uint32(f.CompressedSize) {
+	is64 := f.UncompressedSize >= uint32Max || desc.UncompressedSize != uint32(f.UncompressedSize) || desc.CompressedSize != uint32(f.CompressedSize)
+	// The first 16 bytes of a 64-bit descriptor of a member whose uncompressed
+	// size is 0 read exactly like a 32-bit descriptor. Writers of 64-bit
+	// descriptors (including NewFile in this package) mark the entry as needing
+	// ZIP64 support, so use that to decide, and fall back if it does not fit.
+	ambiguous := !is64 && f.UncompressedSize == 0 && f.lfh.ReaderVersion >= zip45
+	if is64 || ambiguous {
 		// 64-bit
-		if _, err := f.r.ReadAt(f.ddb[dataDescriptorLen:], pos+dataDescriptorLen); err != nil {
-			return err
-		}
+		_, rerr := f.r.ReadAt(f.ddb[dataDescriptorLen:], pos+dataDescriptorLen)
 		var desc64 zipDataDesc64
 		_ = binary.Read(bytes.NewReader(f.ddb), binary.LittleEndian, &desc64)
-		if desc64.CompressedSize != f.CompressedSize || desc64.UncompressedSize != f.UncompressedSize {
+		switch {
+		case rerr == nil && desc64.CompressedSize == f.CompressedSize && desc64.UncompressedSize == f.UncompressedSize:
+			f.CRC32 = desc64.CRC32
+			return nil
+		case !ambiguous && rerr != nil:
+			return rerr
+		case !ambiguous:
 			return errors.New("data descriptor is invalid")
 		}
-		f.CRC32 = desc64.CRC32
-	} else {
-		// 32-bit
-		f.ddb = f.ddb[:dataDescriptorLen]
-		f.CRC32 = desc.CRC32
 	}
+	// 32-bit
+	f.ddb = f.ddb[:dataDescriptorLen]
+	f.CRC32 = desc.CRC32
 	return nil
 }
 
